@@ -327,7 +327,9 @@ func (s *sackDriver) handleHandshake() error {
 			foundSackPermitted = true
 		case layers.TCPOptionKindTimestamps:
 			if len(opt.OptionData) < 8 {
-				return fmt.Errorf("sackDriver found truncated timestamps option")
+				// malformed packet: skip it and keep waiting for a well-formed SYNACK
+				log.Debugf("sackDriver ignored SYNACK with truncated timestamps option")
+				return nil
 			}
 			remoteTSValue := binary.BigEndian.Uint32(opt.OptionData[:4])
 			remoteTSEcr := binary.BigEndian.Uint32(opt.OptionData[4:8])
